@@ -129,6 +129,9 @@ pub struct IterThenCase {
     pub xs: Vec<Val>,
     /// 0: exact hint, 1: (0, None), 2: bounded inexact (lo <= n <= hi, lo < hi)
     pub hint: u8,
+    /// read the sequence back as a fixed-size array of exactly that many elements instead of a Vec
+    #[serde(default)]
+    pub as_array: bool,
     pub next: TV,
     pub suffix: Vec<u8>,
 }
@@ -155,7 +158,8 @@ pub fn check_c07_iter(c: &IterThenCase, acc: &mut Acc, record: bool) -> Verdict 
             acc.sample(&class, json!({"element": c.elem.render(), "items": n, "size_hint": format!("({lo}, {hi:?})"), "next": c.next.ty.render(), "encoding_len": enc_len, "suffix_hex": hex(&c.suffix)}));
         }
     }
-    let tys = vec![Ty::Vec(Arc::new(c.elem.clone())), c.next.ty.clone()];
+    let seq_ty = if c.as_array && [0usize, 1, 2, 3].contains(&n) { Ty::Array(Arc::new(c.elem.clone()), n) } else { Ty::Vec(Arc::new(c.elem.clone())) };
+    let tys = vec![seq_ty, c.next.ty.clone()];
     let want = [Val::Seq(c.xs.clone()), vmodel::with_transient_defaults(&c.next.ty, &c.next.val)];
     let (results, rest) = vcat::decode_many(&tys, &bytes);
     for i in 0..2 {
@@ -172,10 +176,10 @@ pub fn check_c07_iter(c: &IterThenCase, acc: &mut Acc, record: bool) -> Verdict 
 
 fn iter_then_strategy() -> BoxedStrategy<IterThenCase> {
     let cfg = ValCfg { max_len: 6, long: false, ..ValCfg::default() };
-    (any_ty(1), 0u8..3, tv_strategy(2, cfg), suffix_strategy())
-        .prop_filter_map("u8 sequences use the byte-array form when read as Vec<u8>", |(e, h, n, s)| if e == Ty::U8 { None } else { Some((e, h, n, s)) })
-        .prop_flat_map(move |(elem, hint, next, suffix)| (proptest::collection::vec(val_strategy(&elem, cfg), 0..7), Just(elem), Just(hint), Just(next), Just(suffix)))
-        .prop_map(|(xs, elem, hint, next, suffix)| IterThenCase { elem, xs, hint, next, suffix })
+    (any_ty(1), 0u8..3, tv_strategy(2, cfg), suffix_strategy(), any::<bool>())
+        .prop_filter_map("u8 sequences use the byte-array form when read as Vec<u8>", |(e, h, n, s, a)| if e == Ty::U8 { None } else { Some((e, h, n, s, a)) })
+        .prop_flat_map(move |(elem, hint, next, suffix, as_array)| (proptest::collection::vec(val_strategy(&elem, cfg), if as_array { 0..4 } else { 0..7 }), Just(elem), Just(hint), Just(next), Just(suffix), Just(as_array)))
+        .prop_map(|(xs, elem, hint, next, suffix, as_array)| IterThenCase { elem, xs, hint, as_array, next, suffix })
         .boxed()
 }
 
